@@ -8,12 +8,14 @@ Definition d_search (d : data) : search_t := let z := dZ d in if z =? 0 then CBO
 Definition d_acq (d : data) : acq_t :=
   let z := dZ d in if z =? 0 then UCB else if z =? 1 then EI else if z =? 2 then PI else if z =? 3 then MES else GPHedge.
 
-(* [search; surrogate; acq; d; strategy; init; cond; moo; transfer; int_seed] *)
+Definition d_seed (d : data) : seed_t :=
+  let z := dZ d in if z =? 0 then SeedPyInt else if z =? 1 then SeedNpInt else if z =? 2 then SeedRandomState else SeedOther.
+(* [search; surrogate; acq; d; strategy; init; cond; moo; transfer; seed kind] *)
 Definition d_cfg (d : data) : cfg :=
   {| c_search := d_search (dnth 0 d); c_surr := dZ (dnth 1 d); c_acq := d_acq (dnth 2 d); c_acq_d := dbool (dnth 3 d);
      c_strategy := dZ (dnth 4 d); c_init := dZ (dnth 5 d); c_cond := dbool (dnth 6 d); c_moo := dbool (dnth 7 d);
-     c_transfer := dbool (dnth 8 d); c_int_seed := dbool (dnth 9 d) |}.
-Definition d_world (d : data) : world := {| w_sample_possible := dbool (dnth 0 d) |}.
+     c_transfer := dbool (dnth 8 d); c_seed := d_seed (dnth 9 d) |}.
+Definition d_world (d : data) : world := {| w_sample_possible := dbool (dnth 0 d); w_npint_seeded := dbool (dnth 1 d) |}.
 Definition d_site (d : data) : site := {| s_owner := dZ (dnth 0 d); s_key := dZ (dnth 1 d); s_cls := dZ (dnth 2 d) |}.
 Definition d_esite (d : data) : esite := {| e_owner := dZ (dnth 0 d); e_key := dZ (dnth 1 d); e_kind := dZ (dnth 2 d); e_flow := dZ (dnth 3 d) |}.
 Definition d_trace (d : data) : trace := dmap (dmap dZ) d.
